@@ -35,6 +35,8 @@ ASSUME = [
 OP1 = {'-': 0, '#': 1, ',': 2}
 OP2 = {'+': 0, '-': 1, '*': 2, ',': 3, '@': 4, '=': 5, '<': 6, '::': 7}
 RESERVED = {'x': 0, 'y': 1, 'z': 2, '.f': 3}
+# Python callables known to the model's oracle table (Run.v pyfun), by function name
+PYIDS = {'boom': 0, 'pyid': 1, 'pyadd': 2, 'eval_sys_from_channel': 10}
 
 
 def name_code(s):
@@ -66,6 +68,14 @@ def to_term(v):
         return ["i", int(v)]
     if isinstance(v, (int, np.integer)):
         return ["i", int(v)]
+    if isinstance(v, (float, np.floating)):
+        import struct
+        return ["r", struct.unpack(">Q", struct.pack(">d", float(v)))[0]]
+    if isinstance(v, KGLambda):
+        name = getattr(v.fn, "__name__", None)
+        if name not in PYIDS:
+            raise Unsupported("python callable " + str(name))
+        return ["py", PYIDS[name], [name_code(a) for a in v.args]]
     if is_char(v):      # klongpy.types.KGChar and the backend's own KGChar class
         return ["c", ord(str(v))]
     if isinstance(v, KGSym):
@@ -75,8 +85,6 @@ def to_term(v):
     if isinstance(v, np.ndarray):
         if v.ndim == 0:
             return to_term(v.item())
-        if v.dtype.kind == 'f' and v.size > 0:
-            raise Unsupported("float array")
         return ["a"] + [to_term(e) for e in v]
     if isinstance(v, KGCond):
         if len(v) != 3:
@@ -163,6 +171,28 @@ def generate():
         out.append("Definition resolve_passes : nat := %d." % passes)
         out.append("Definition args_evaluated_before_push : bool := %s." % astlib.coq_bool(before))
 
+    def truth_flag():
+        m = astlib.module("klongpy/interpreter.py")
+        cls = astlib.find_class(m, "KlongInterpreter")
+        fn = astlib.find_func(cls, "eval")
+        hits = []
+        for n in ast.walk(fn):
+            if isinstance(n, ast.If) and ast.unparse(n.test) == "isinstance(x, KGCond)":
+                hits.append(n)
+        if len(hits) != 1:
+            raise ShapeError("eval: expected one `isinstance(x, KGCond)` branch")
+        body = hits[0].body
+        # q = self.call(x[0]); p = not ((is_number(q) and q == 0) or is_empty(q)); return call(x[1]) if p else call(x[2])
+        if len(body) != 3:
+            raise ShapeError("KGCond branch: expected three statements")
+        ok = (ast.unparse(body[0]) == "q = self.call(x[0])" and
+              ast.unparse(body[1]) == "p = not (self._backend.is_number(q) and q == 0 or is_empty(q))" and
+              ast.unparse(body[2]) == "return self.call(x[1]) if p else self.call(x[2])")
+        return ok
+    tf, why = astlib.try_flag(truth_flag)
+    out.append("Definition cond_zero_test_is_exact : bool := %s.%s" % (
+        astlib.coq_bool(bool(tf)), "" if why is None else "  (* shape not recognised: %s *)" % why))
+
     def merge_flags():
         m = astlib.module("klongpy/types.py")
         fn = astlib.find_func(m, "merge_projections")
@@ -208,8 +238,31 @@ def snap(k):
         out.append(fr)
     return out
 
-def run_case(stmts):
+def boom(x):
+    raise ValueError("boom")
+
+def pyid(x):
+    return x
+
+def pyadd(x, y):
+    return x + y
+
+def new_interp():
     k = KlongInterpreter()
+    k['boom'] = boom
+    k['pyid'] = pyid
+    k['pyadd'] = pyadd
+    return k
+
+def init_frames():
+    from klongpy.core import KGSym
+    k = new_interp()
+    g = sx(snap(k)[0])
+    sysf = sx([[to_term(KGSym('.fc'))[1], to_term(k._context[KGSym('.fc')])]])
+    return g, sysf
+
+def run_case(stmts):
+    k = new_interp()
     kp = KlongInterpreter()
     res = []
     for text in stmts:
@@ -265,7 +318,7 @@ def run_merge(arrs):
     return out
 
 req = json.load(sys.stdin)
-out = {"cases": [run_case(c) for c in req.get("cases", [])], "merge": run_merge(req.get("merge", []))}
+out = {"cases": [run_case(c) for c in req.get("cases", [])], "merge": run_merge(req.get("merge", [])), "init": init_frames()}
 json.dump(out, sys.stdout)
 '''
 
@@ -277,6 +330,15 @@ def run_child(cases, merge=()):
     if p.returncode != 0:
         raise RuntimeError("C03 child failed: " + p.stderr.decode()[-2000:])
     return json.loads(p.stdout.decode())
+
+
+_INIT = {}
+
+
+def init_frames_sx():
+    if "v" not in _INIT:
+        _INIT["v"] = run_child([])["init"]
+    return _INIT["v"]
 
 
 def run_child_sharded(cases, shards=4):
@@ -480,7 +542,9 @@ def family_proj(rng, tier):
                                       "no_change_from": i_call}
 
 
-FAULTS = ['1+"a"', 'und(1)', '[1 2]@9']
+# Klong-level faults and faults raised inside Python-implemented functions (a callable registered from
+# Python, a system function given a bad argument): _eval_fn runs those on a separate path (KGLambda)
+FAULTS = ['1+"a"', 'und(1)', '[1 2]@9', 'boom(1)', '.fc("nochannel")']
 
 
 def family_faults(rng, tier):
@@ -506,7 +570,7 @@ def family_faults(rng, tier):
                         combos.append((d, level, slot, fault, fs))
     if tier == "quick":
         rng.shuffle(combos)
-        combos = combos[:260]
+        combos = combos[:330]
     for d, level, slot, fault, fs in combos:
         defs = []
         for k in range(d, 0, -1):
@@ -526,19 +590,33 @@ def family_faults(rng, tier):
                                          "where": [d, level, slot, fault, list(fs)]}
 
 
+# condition texts with the truth the property text prescribes: exactly 0 (any numeric zero), [] and "" are false
+COND_FALSE = ['0', '[]', '""', '0-0', '1-1', '#[]', '0.0', '-0.0', '0*2.5', '1.5-1.5']
+COND_TRUE = [v for v in VALS if v not in FALSY] + [
+    '[0]', '"0"', '{x}', '-1', '0c0', '[[]]', '#"a"', 'nn', '" "', ':sym', '[""]', '[0.0]',
+    '0.000000001', '-0.000000001', '1.0e-300', '-1.0e-300', '0.00000001', '(0.1+0.2)-0.3', '1.0e300', '-2.5', '0.5', '1.0e-9*1.0e-9',
+    ':{}', ':{[1 2]}', 'ff', 'pyid', '.fc']
+
+
 def family_cond(rng, tier):
-    conds = VALS + ['[0]', '"0"', '{x}', '-1', '0c0', '[[]]', '0-0', '1-1', '#[]', '#"a"', 'nn']
-    for c in conds:
-        falsy = c in FALSY or c in ('0-0', '1-1', '#[]')
+    conds = [(c, True) for c in COND_FALSE] + [(c, False) for c in COND_TRUE]
+    for c, falsy in conds:
         sel = 2 if falsy else 1
-        yield ['m::0', ':[%s;m::1;m::2]' % c, 'm'], {"family": "cond", "expect_int": (2, sel), "expect_int2": (1, sel)}
-        yield [':[%s;1;1+"a"]' % c], {"family": "cond", "expect_err": (0, falsy), "expect_int": None if falsy else (0, 1)}
-        yield [':[%s;und(1);2]' % c], {"family": "cond", "expect_err": (0, not falsy), "expect_int": (0, 2) if falsy else None}
-        yield ['m::0', 'f::{:[x;m::y;m::z]}', 'f(%s;1;2)' % c, 'm'], {"family": "cond", "expect_int": (3, sel)}
-        for c2 in ['0', '1', '[]', '"x"']:
-            f2 = c2 in FALSY
+        oo = {"family": "cond", "oracle_only": True}
+        pre = ['ff::{x+1}']
+        n = len(pre)
+        yield pre + ['m::0', ':[%s;m::1;m::2]' % c, 'm'], dict(oo, expect_int=(n + 2, sel), expect_int2=(n + 1, sel))
+        yield pre + [':[%s;1;1+"a"]' % c], dict(oo, expect_err=(n, falsy), expect_int=None if falsy else (n, 1))
+        yield pre + [':[%s;und(1);2]' % c], dict(oo, expect_err=(n, not falsy), expect_int=(n, 2) if falsy else None)
+        yield pre + ['m::0', 'f::{:[x;m::y;m::z]}', 'f(%s;1;2)' % c, 'm'], dict(oo, expect_int=(n + 3, sel))
+        yield pre + ['m::0', 'v::%s' % c, 'g::{:[v;m::1;m::2]}', 'g()', 'm'], dict(oo, expect_int=(n + 4, sel))
+        for c2 in ['0', '1', '[]', '"x"', '0.000000001', '0.0']:
+            f2 = c2 in FALSY or c2 == '0.0'
             exp = 1 if not falsy else (2 if not f2 else 3)
-            yield ['m::0', ':[%s;m::1:|%s;m::2;m::3]' % (c, c2), 'm'], {"family": "cond", "expect_int": (2, exp)}
+            yield pre + ['m::0', ':[%s;m::1:|%s;m::2;m::3]' % (c, c2), 'm'], dict(oo, expect_int=(n + 2, exp))
+            # the same chain with the two conditions swapped
+            exp2 = 1 if not f2 else (2 if not falsy else 3)
+            yield pre + ['m::0', ':[%s;m::1:|%s;m::2;m::3]' % (c2, c), 'm'], dict(oo, expect_int=(n + 2, exp2))
 
 
 MISC = [
@@ -552,6 +630,7 @@ MISC = [
     ['f::{nn::x}', 'f(1)', 'nn', 'nn::0', 'f(2)', 'nn'],
     ['f::{x+y}', 'g::{f(x;)}', 'g(1)', 'h::{f(1;)}', 'h', 'h(2)', 'h()'],
     ['k::{.f}', 'k()', 'k(1)', '.f'],
+    ['boom(1)', 'pyid(5)', 'pyadd(2;3)', 'pyid@7', 'g::{[a];a::x*2;boom(a)}', 'a::100', 'g(7)', 'a', 'x', 'h::{pyid(x)+1}', 'h(4)', '.fc("nochannel")', 'a'],
     ['f::{[a b];a::1;b::2;a+b}', 'f()', 'a', 'b', 'f::{[a 1];a}', 'f()'],
     ['f::{x;y}', 'f(1;2)', 'f(und(1);2)', 'f(1;und(2))', 'f(1+"a";und(2))'],
     ['a::[1 2 3]', 'a@0', 'a@[0 2]', 'a@-1', 'a@3', 'a@"x"', '"abc"@1', '"abc"@[2 0]', '5@0', 'a@[]'],
@@ -670,12 +749,13 @@ def check_programs(chk, rng, fams):
                 controls.append(meta["pre"] + ['c::%d' % n] + meta["follow"])
     ctrl = run_child_sharded(controls) if controls else []
     reqs = []
+    init_g, init_s = init_frames_sx()
     for (st, meta), recs in zip(cases, impl):
         terms = [r["term"] for r in recs]
         if any(t is None for t in terms):
             reqs.append("(run 1 ())")
         else:
-            reqs.append("(run %d (%s))" % (FUEL, " ".join(terms)))
+            reqs.append("(runs %d (%s) %s %s)" % (FUEL, " ".join(terms), init_g, init_s))
     model = chk.run_model(reqs)
     bad_props, bad_corrs = [], []
     seen = set()
@@ -686,12 +766,15 @@ def check_programs(chk, rng, fams):
         if key not in seen:
             seen.add(key)
             chk.count("distinct_nontrivial")
-        if any(r["term"] is None for r in recs):
+        oracle_only = meta.get("oracle_only") and any(r["term"] is None for r in recs)
+        if oracle_only:
+            chk.count("oracle_only_programs")
+        elif any(r["term"] is None for r in recs):
             chk.count("skipped_unparsed")
             bad_corrs.append({"kind": "generator produced a text outside the modelled syntax", "statements": st,
                               "detail": [(r.get("unsupported"), r.get("parse")) for r in recs]})
             continue
-        if any("parse" in r for r in recs):
+        if any("parse" in r for r in recs) and not oracle_only:
             bad_corrs.append({"kind": "generator text not fully parsed", "statements": st, "detail": [r.get("parse") for r in recs]})
             continue
         # ---- property oracle on the implementation alone
@@ -747,6 +830,8 @@ def check_programs(chk, rng, fams):
                 else:
                     viol("follow-up `c` did not evaluate to an integer")
         # ---- model equality
+        if oracle_only:
+            continue
         if len(mod) != len(recs):
             bad_corrs.append({"kind": "model runner output shape", "statements": st, "model": sx(mod)[:300]})
             continue
